@@ -7,6 +7,7 @@ package main
 
 import (
 	"context"
+	"encoding/hex"
 	"encoding/json"
 	"errors"
 	"fmt"
@@ -22,10 +23,24 @@ func init() { props["C15"] = runC15 }
 // ---- symbolic values ----
 
 type c15Val struct {
-	Gen  bool   `json:"g,omitempty"`
-	Salt int    `json:"s,omitempty"`
-	N    int    `json:"n,omitempty"`
-	Lit  []byte `json:"l,omitempty"`
+	Gen  bool     `json:"g,omitempty"`
+	Salt int      `json:"s,omitempty"`
+	N    int      `json:"n,omitempty"`
+	Lit  hexBytes `json:"l,omitempty"`
+}
+
+// hexBytes prints literal bytes as a hex string in descriptors.
+type hexBytes []byte
+
+func (h hexBytes) MarshalJSON() ([]byte, error) { return json.Marshal(hex.EncodeToString(h)) }
+func (h *hexBytes) UnmarshalJSON(b []byte) error {
+	var s string
+	if err := json.Unmarshal(b, &s); err != nil {
+		return err
+	}
+	d, err := hex.DecodeString(s)
+	*h = d
+	return err
 }
 
 // genVal mirrors Opt/Run.v gen_val: gen_body with '/' replaced by '0'.
@@ -53,8 +68,8 @@ func (v c15Val) coq() string {
 	return "(L " + coqBytes(v.Lit) + ")"
 }
 
-func gv(salt, n int) c15Val  { return c15Val{Gen: true, Salt: salt, N: n} }
-func lv(s string) c15Val     { return c15Val{Lit: []byte(s)} }
+func gv(salt, n int) c15Val { return c15Val{Gen: true, Salt: salt, N: n} }
+func lv(s string) c15Val    { return c15Val{Lit: []byte(s)} }
 func pathBytes(p []c15Val) []byte {
 	var b []byte
 	for _, x := range p {
@@ -867,6 +882,14 @@ func runC15(a runArgs) error {
 						{K: "path", ID: 11, P: p, B: b}, {K: "path", ID: 8 + 3*mode, P: p, B: b}}}, "directed")
 				}
 			}
+		}
+	}
+	// refused ResetOptionsTo (buffer too small for the second value) on a populated list
+	for _, cp := range caps {
+		for _, b := range []int{0, 1, 3, 4, 11, 12} {
+			c15Emit(e, c15Case{Mode: 0, Cap: cp, Probes: []int{1, 2, 5, 6}, Ops: []c15Op{
+				{K: "add", ID: 1, V: lv("m")}, {K: "add", ID: 2, V: lv("b")},
+				{K: "reset", B: b, Ins: []c15In{{5, lv("x")}, {6, lv("0123456789")}, {5, lv("y")}}}, {K: "add", ID: 2, V: lv("c")}}}, "directed")
 		}
 	}
 	// pool.Message: value buffer nearly full, then a path / a string / a reset that needs growth
